@@ -15,7 +15,7 @@ reg("C04",
            "whole_value_write", "whole_value_write_without_fields", "whole_value_write_one_field", "key_added", "key_erased", "key_resurrected_same_cycle", "noop_remove_ticks", "window_cleared", "window_rolled"],
     bounds="unit level, no graph: one real TSOutput of each shape in {TS<int>, SIGNAL, TSS<int>, TSD<int,TS<int>>, TSB{a,b}, TSL<TS<int>,2>, TSW<int,2,1>, "
            "TSD<int,TSB{a,b}>} (enumerated) with three real TSInput consumers bound to it (passive; active with a notifier; bound one cycle late); NCYC cycles "
-           "(NCYC+1 for TS/SIGNAL/TSW) of NOPS producer operations each (BIG_LAST in the last cycle of the two TSD shapes and of TSW), operations enumerated from "
+           "(NCYC+1 for TS/SIGNAL/TSW) of NOPS producer operations each (BIG_LAST in the last cycle of TSD, TSB, TSL, TSW and TSD<int,TSB>), operations enumerated from "
            "{nothing, write, write twice, child-only write, whole-value write through the parent with both / no / one child set (TSB, TSL), invalidate root, invalidate child, add/remove/clear (TSS), set/erase/clear/"
            "element write/element invalidate (TSD), push/clear/clear+push (TSW)}; keys from {0..NK-1} concrete; base time in [0,1e6] us, every gap between "
            "cycles in [1,GMAX] us and every payload in [-1e6,1e6] symbolic; all flags checked at the cycle time and at the following idle instant (T+1 us)",
